@@ -145,8 +145,8 @@ func hCheckAccepted(id string, def PresentationDefinition, presented []vc.Verifi
 //   mode empty  : an envelope without presentation: accepted => the definition needs no credentials.
 func H12e() {
 	hVerdicts = map[string]int{}
-	hVerdictErrs = vParam("errs", 0)
-	nd := vLen(0, vParam("d", 2))
+	hVerdictErrs = vParam("eerrs", 0)
+	nd := vLen(0, vParam("ed", 2))
 	vTag("with_requirements")
 	withReqs := vBool()
 	vTag("mode")
@@ -158,7 +158,7 @@ func H12e() {
 		hAllInGroupA = vParam("fgroups", 0) == 0
 		def = hGenDefinition(nd, withReqs, 1, vParam("fshapes", 2), 0, 0)
 	} else {
-		def = hGenDefinition(nd, withReqs, vParam("reqs", 1), vParam("shapes", 3), vParam("nest", 0), 0)
+		def = hGenDefinition(nd, withReqs, vParam("ereqs", 1), vParam("eshapes", 3), vParam("enest", 0), 0)
 	}
 	for _, r := range def.SubmissionRequirements {
 		if hPanicsToday(r) {
@@ -169,7 +169,7 @@ func H12e() {
 	switch mode {
 	case 0: // honest wallet
 		vCover("honest")
-		nv := vLen(0, vParam("v", 2))
+		nv := vLen(0, vParam("ev", 2))
 		wallet := hWallet(def, nv)
 		builder := def.PresentationSubmissionBuilder()
 		builder.AddWallet(did.DID{Method: "web", ID: "holder"}, wallet)
@@ -204,7 +204,7 @@ func H12e() {
 		}
 	case 1: // arbitrary descriptor map
 		vCover("forged")
-		nv := vLen(1, vParam("v", 2))
+		nv := vLen(1, vParam("ev", 2))
 		presented := hWallet(def, nv)
 		sub := PresentationSubmission{Id: "s", DefinitionId: def.Id}
 		nm := vLen(0, nd+1)
